@@ -99,6 +99,19 @@ def _all_param_func(
 
 # ......................................................................................................................
 
+def _in_lambda_body(fst_: fst.FST, stop: AST) -> bool:
+    """Whether `fst_` is in the body of a `Lambda` which is below the node `stop`."""
+
+    while fst_.a is not stop:
+        if fst_.pfield.name == 'body' and (parent := fst_.parent).a.__class__ is Lambda:
+            return True
+
+        if not (fst_ := fst_.parent):
+            break
+
+    return False
+
+
 class _ScopeContext:
     walk_root: fst.FST
     all: bool | Literal['loc'] | type[AST] | Container[type[AST]] | Callable[[fst.FST], object]
@@ -439,6 +452,7 @@ class _ScopeContext:
             elif (  # all NamedExpr.targets are in parent scope
                 f.parent.a.__class__ is NamedExpr
                 and f.pfield.name == 'target'  # a.__class__ is Name
+                and not _in_lambda_body(f, ast)  # except those in the body of a lambda inside the Comprehension, they are local to the lambda
             ):
                 subrecurse = True
 
